@@ -19,6 +19,8 @@ pub struct Opts {
     pub neq: bool,
     pub max_leaf_answers: u32,
     pub max_latency: u8,
+    /// no list terms anywhere
+    pub atoms_only: bool,
 }
 
 impl Opts {
@@ -36,6 +38,7 @@ impl Opts {
             neq: false,
             max_leaf_answers: 4,
             max_latency: 6,
+            atoms_only: false,
         }
     }
 }
@@ -70,6 +73,13 @@ impl<'a> Gen<'a> {
     }
 
     fn atom(&mut self) -> T {
+        if self.o.atoms_only {
+            return match self.w.below(6) {
+                0 => T::S("a".into()),
+                1 => T::B(true),
+                _ => T::I(*self.w.pick(&ATOMS)),
+            };
+        }
         match self.w.below(8) {
             0 => T::S("a".into()),
             1 => T::B(true),
@@ -87,7 +97,7 @@ impl<'a> Gen<'a> {
     }
 
     pub fn term(&mut self, scope: &[VarIx], depth: u32) -> T {
-        if depth == 0 || self.w.chance(3, 5) {
+        if depth == 0 || self.o.atoms_only || self.w.chance(3, 5) {
             return self.var_or_atom(scope);
         }
         let n = self.w.below(4);
@@ -226,7 +236,56 @@ impl<'a> Gen<'a> {
         1 + self.w.below(self.o.max_width as usize)
     }
 
+    pub fn goal_committed(&mut self, scope: &[VarIx], depth: u32) -> G {
+        self.committed(scope, depth)
+    }
+
+    fn committed(&mut self, scope: &[VarIx], depth: u32) -> G {
+        let kind = self.w.below(3);
+        let head = |g: &mut Self, allow_flood: bool| -> G {
+            let r = g.w.below(10);
+            if r < 5 {
+                let mut lf = g.leaf(scope, false);
+                if allow_flood && !lf.answers.is_empty() && g.l.chance(1, 3) {
+                    lf.tail = Tail::Flood;
+                }
+                G::Leaf(lf)
+            } else if r < 7 {
+                let k = 1 + g.w.below(2);
+                G::Dfs(g.goals(scope, depth.saturating_sub(1).min(1), true, k))
+            } else {
+                g.goal(scope, depth.saturating_sub(1).min(1), false)
+            }
+        };
+        if kind == 2 {
+            let k = 1 + self.w.below(2);
+            let mut gs = vec![head(self, k == 1)];
+            for _ in 1..k {
+                gs.push(self.goal(scope, 0, false));
+            }
+            return G::Onceo(gs);
+        }
+        let n = 1 + self.w.below(3);
+        let mut cs = vec![];
+        for _ in 0..n {
+            let mut c = vec![head(self, kind == 1)];
+            let k = self.w.below(3);
+            for _ in 0..k {
+                c.push(self.goal(scope, depth.saturating_sub(1).min(1), false));
+            }
+            cs.push(c);
+        }
+        if kind == 0 {
+            G::Conda(cs)
+        } else {
+            G::Condu(cs)
+        }
+    }
+
     pub fn goal(&mut self, scope: &[VarIx], depth: u32, dfs: bool) -> G {
+        if self.o.committed && !dfs && depth > 0 && self.w.chance(1, 4) {
+            return self.committed(scope, depth);
+        }
         let leafy = depth == 0;
         let roll = self.w.below(100);
         if leafy || roll < 30 {
